@@ -151,7 +151,7 @@ def ser_instrs(types, instrs, tree, out, san, st, scope, in_chunk):
                 if st["missing"]:
                     continue
             if v is None:
-                raise RefInvalid("missing")
+                v = 0           # a required length whose (optional) referent is absent counts nothing
             wire = v - ins[3]
             assume(wire >= 0)
             put_int(out, ins[2], wire)
